@@ -25,6 +25,9 @@ type TaintConfig struct {
 	// OutOfScopeEdge reports that the i-th incoming edge of a φ-node lies on a path the property does not quantify
 	// over (with the reason); on such an edge a bound may be vacuous (the value bounds itself).
 	OutOfScopeEdge func(phi *ssa.Phi, i int) (string, bool)
+	// OutSource reports calls that deliver a wire value through a pointer argument (hand-written readers of the
+	// form readInt32(r, sz, &v)): the local variable whose address is passed holds a wire value afterwards.
+	OutSource func(c *ssa.Call) (arg int, desc string, ok bool)
 }
 
 // TaintSink is one use of a wire-derived length in a dangerous position.
@@ -141,9 +144,18 @@ func (st *taintState) step(fn *ssa.Function, ins ssa.Instruction) bool {
 	changed := false
 	switch x := ins.(type) {
 	case *ssa.Call:
-		if d, ok := st.cfg.IsSource(x); ok {
-			if st.mark(x, d) {
-				changed = true
+		if st.cfg.IsSource != nil {
+			if d, ok := st.cfg.IsSource(x); ok {
+				if st.mark(x, d) {
+					changed = true
+				}
+			}
+		}
+		if st.cfg.OutSource != nil {
+			if i, d, ok := st.cfg.OutSource(x); ok && i < len(x.Call.Args) {
+				if a, isAlloc := x.Call.Args[i].(*ssa.Alloc); isAlloc {
+					changed = st.mark(a, d) || changed
+				}
 			}
 		}
 		// arguments into in-scope callees taint the parameters
@@ -238,6 +250,10 @@ func (st *taintState) sinksOf(fn *ssa.Function) []TaintSink {
 			add(ins, "make-len", x.Len)
 			if x.Cap != x.Len {
 				add(ins, "make-cap", x.Cap)
+			}
+		case *ssa.MakeMap:
+			if x.Reserve != nil {
+				add(ins, "makemap-hint", x.Reserve)
 			}
 		case *ssa.Slice:
 			if x.Low != nil {
@@ -458,6 +474,11 @@ func (st *taintState) loopHasStateExit(h *ssa.BasicBlock) bool {
 				if fa, ok := ld.X.(*ssa.FieldAddr); ok && FieldName(fa.X.Type(), fa.Field) == "err" {
 					return true
 				}
+			}
+			// an exit on a local error value (the hand-written readers return their error instead of keeping it
+			// in a decoder): the loop ends with the first failed read
+			if types.Identical(v.Type(), types.Universe.Lookup("error").Type()) {
+				return true
 			}
 			if c, ok := v.(*ssa.Call); ok {
 				if b, isB := c.Call.Value.(*ssa.Builtin); isB && (b.Name() == "len" || b.Name() == "cap") {
